@@ -93,7 +93,10 @@ func (vc VisitorContext) Visit(node jet.Node) {
 }
 
 func (vc VisitorContext) visitIncludeNode(includeNode *jet.IncludeNode) {
-	vc.visitNode(includeNode)
+	vc.visitNode(includeNode.Name)
+	if includeNode.Context != nil {
+		vc.visitNode(includeNode.Context)
+	}
 }
 
 func (vc VisitorContext) visitBlockNode(blockNode *jet.BlockNode) {
